@@ -27,7 +27,14 @@ for MOD, EV, CANCEL, extra in (
     fn(L + ".asgi_send", params={"message": MSG}, effect="atomic",
        raises={"LifespanFailureError": {"ensures": [
                    # C14.send: a failure reported by the application becomes LifespanFailureError
-                   ("C14.send.failed", "message['type'] in " + FAILED, "C14,C16")]},
+                   ("C14.send.failed", "message['type'] in " + FAILED, "C14,C16")] + ([
+                   # C14 "startup.failed ... aborts the server with an error and nothing is served"
+                   # (asyncio): worker_serve learns of the failure from the finished lifespan task,
+                   # so the startup waiter must not be released before that task has ended -- an
+                   # application that is still unwinding (an await in a finally block) would
+                   # otherwise be served.  handle_lifespan's finally clause releases it.  (On trio
+                   # the failing child cancels the worker through its nursery.)  Fixed in /repo cc29582.
+                   ("C14.send.failed-does-not-release", "implies(message['type'] == 'lifespan.startup.failed', self.startup.flag == old(self.startup.flag))", "C14")] if "asyncio" in MOD else [])},
                "UnexpectedMessageError": {"ensures": [
                    ("C14.send.unknown", "message['type'] not in " + COMPLETE + " and message['type'] not in " + FAILED, "C14,C16")]}},
        ensures=[
